@@ -1,6 +1,9 @@
 """C01 - encode then decode reproduces the drawing program (and back again).
 
-MC  : MC_Encoder (control state of the encoder model) and MC_Decoder (decoding machine).
+MC  : MC_Encoder (control state of the encoder model), MC_Decoder (decoding machine) and
+      MC_EncoderBytes: the property inside the specification - for every history of the bound the
+      decoding machine run over the bytes of the byte-exact Encoder model (EncoderBytes.tla, bound
+      to the real Encoder by X03) delivers the history up to quantisation.
 TV  : random well-formed programs (all 30 methods, runs beyond the 16/32 opcode limits, every colour
       kind, float classes incl. NaN/Inf/huge/1-ulp-off-a-short-form, low/high resolution toggled
       between paths, default/custom viewBox and palette, zero-value Encoder) are driven into real
@@ -17,6 +20,7 @@ def run(ctx):
     ctx.build_harness()
     ctx.tlc_must_pass("MC_Encoder", "MC_Encoder", timeout=900)
     ctx.tlc_must_pass("MC_Decoder", "MC_Decoder_q", timeout=900)
+    ctx.tlc_must_pass("MC_EncoderBytes", "MC_EncoderBytes_q" if quick else "MC_EncoderBytes_t", timeout=3000)
     fams = ["wellformed", "runs", "longruns", "zerofirst", "open", "converse", "reuse"]
     r = enccheck.run_enc_traces(ctx, fams, 400 if quick else 40000, ["err", "mode"], want=("rt", "dec"))
     for kind, ds in r["diags"].items():
@@ -26,7 +30,7 @@ def run(ctx):
             ctx.violation(key, "round trip rejected by %s (%s)" % (kind, fam), enccheck.trim(d))
     st = r["summary"]["stats"]
     mc = ctx.mc[0]
-    cov = dict(states=mc["distinct"] + ctx.mc[1]["distinct"], transitions=mc["generated"] + ctx.mc[1]["generated"],
+    cov = dict(states=sum(m["distinct"] for m in ctx.mc), transitions=sum(m["generated"] for m in ctx.mc),
                traces_validated_against_impl=st.get("roundtrips", 0) + st.get("converse", 0),
                samples=vlib.sample_lines(r["files"]["rt"][0], 3, 700),
                evaluations=r["summary"]["rt_events"] + r["summary"]["dec_events"],
